@@ -63,6 +63,20 @@ def scenarios(tier):
                   {'pending': True, '_expect_rx': big},
                   og={('10.0.0.1', 80): (lambda big=big: HttpOrigin([], respond=lambda c, k, r: [big]))},
                   sockbuf=4096)
+    # an idle connection next to a BUSY one: the event loop never sees a select() time-out while the
+    # neighbour chatters, but time passes all the same (each busy iteration is priced at DT_BUSY)
+    DT_BUSY = 0.01
+    for T in timeouts:
+        for ph in phases[:2]:
+            for idle_name, idle_script in (('silent', [('wait_eof',)]),
+                                           ('after-exchange', [('send', GET % 1), ('wait_recv', len(OK)), ('wait_eof',)])):
+                n = int((T + PERIOD + 1.0) / DT_BUSY)
+                busy = [('send', CONNECT), ('wait_recv', len(ACK) + 5)] + [('send', b'x')] * n + [('wait_eof',)]
+                out.append(Scenario('local/T%d/ph%d/%s+busy-neighbour' % (T, ph, idle_name), ['--threadless', '--timeout', str(T)],
+                                    mode='local', clients=[dict(script=idle_script, start_turn=ph), dict(script=busy, start_turn=0)],
+                                    origins=origins, dns=dns, kinds='', horizon=6000, min_time=2 * T + PERIOD + 4.5,
+                                    features={'mode': 'local', 'timeout': T, 'trace': idle_name + '+busy-neighbour', '_T': T,
+                                              'busy_neighbour': True, '_dt_busy': DT_BUSY}))
     return out
 
 
@@ -118,7 +132,8 @@ def run(tier):
                         rule='timeouts x reaper phase offsets x timed traces (silence, half request, after an exchange, activity '
                              'resuming 1 tick / 2 ticks / half a timeout before the deadline, three keep-alives in a row, tunnel '
                              'with and without client activity, output pending across the deadline) x {threadless, threaded}, '
-                             'under a virtual clock advanced only by select() timeouts')
+                             'under a virtual clock advanced by select() timeouts; plus an idle connection beside a continuously busy tunnel, '
+                             'where every busy loop iteration costs 10 ms of virtual time')
 
 
 def replay(path):
